@@ -217,6 +217,10 @@ func runProperty(p *Property, tier, repo, verif string, seed int64) (code int) {
 	r.W = w
 	p.Run(w, r)
 	checkErrorPolarity(w, r)
+	if g := os.Getenv("LC_GAPS"); g != "" {
+		d, _ := strconv.Atoi(g)
+		reportGaps(w, r, verif, d)
+	}
 	return r.Finish(verif)
 }
 
